@@ -497,7 +497,13 @@ def main(argv):
     sys.path.insert(0, VERIF)
     if a.replay:
         return replay_file(a.pid, a.replay)
-    return check(a.pid, a.tier, seed)
+    try:
+        return check(a.pid, a.tier, seed)
+    except Exception:
+        import traceback
+        traceback.print_exc()
+        print('HARNESS-ERROR property=%s the check itself failed (no verdict)' % a.pid)
+        return 3
 
 
 if __name__ == '__main__':
